@@ -13,8 +13,9 @@ import Asn1Proofs.Lemmas.PrefixUper
   The octet-boundary hypothesis is what makes `Decoder.align_always` harmless: `align` drops
   `padLen pos` of the REMAINING bits, and only at an octet boundary of the message are that many
   bits always left.  (Without it the statement is false, see `PrefixPerTypes.lean`.)  Every result
-  also carries the invariant `position + remaining = total`, i.e. exact consumption; it is needed
-  for the backward `skip_bits` of a CHOICE addition.
+  also carries the invariant `position + remaining = total`, i.e. exact consumption (it was needed
+  for the backward `skip_bits` of a CHOICE addition, which repair ace6523 of /repo turned into a
+  `DecodeError`; the invariant is kept because `Per.truncated_bits` reports it).
 -/
 set_option linter.unusedSimpArgs false
 set_option linter.unusedVariables false
